@@ -17,6 +17,10 @@ turn a concurrent execution into such a sequence and keep the order on the way t
   2. each ordered message kind has one emitting role ..... emitters, emitters_complete
   3. a queue fed by non-blocking sends keeps order ....... fifo_lossy, fifo_per_kind, delivered_pair_order
                                                           (generic, Nexus/L3/Fifo)
+  composed (audit B: C08 A1/D1) ......................... pipeline_program_order, pipeline_delivery,
+                                                          broker_pipeline, dealer_pipeline, pipeline_pair_order
+                                                          (generic, Nexus/L3/WpL3Pipeline: sessions → one worker →
+                                                           per-recipient lossy queues, for every schedule)
 
 What this gives. All SUBSCRIBED, UNSUBSCRIBED and EVENT messages are put into a client's queue by the
 broker goroutine, all REGISTERED, UNREGISTERED, INVOCATION, INTERRUPT, RESULT and CALL-ERROR messages by
@@ -34,13 +38,16 @@ the receiver's queue was full are simply missing from the received sequence (los
 -/
 import Nexus.L3.Wait
 import Nexus.L3.Fifo
+import Nexus.L3.WpL3Pipeline
+import Nexus.L3.WpL3Wait
 
 namespace Nexus.C08
 open Nexus.Gen.Sites Nexus.L3
 
-/-- Roles that put a message of the given kind into a *client's* queue. -/
+/-- Roles that put a message of the given kind into a *client's* queue (table (f), with the record
+    of the `sendAbort` closure's second goroutine context, Nexus/L3/WpL3Wait.lean). -/
 def emitterRoles (msgType errType : Nat) : List Role :=
-  (msgSends.filter fun m => !m.toMeta && Nat.beq m.msgType msgType && Nat.beq m.errType errType).flatMap
+  (WpL3.allMsgSends.filter fun m => !m.toMeta && Nat.beq m.msgType msgType && Nat.beq m.errType errType).flatMap
     (fun m => siteRoles m.fn m.gctx m.garg) |>.eraseDups
 
 def sameSet (a b : List Role) : Bool := subsetR a b && subsetR b a
@@ -70,7 +77,8 @@ def expectedEmitters : List (Nat × Nat × List Role) := [
   (key! "Error", key! "REGISTER", [.H, .HM, .D]),  -- invalid/restricted URI, disclose: H; already exists: D
   (key! "Goodbye", key! "", [.H, .HM]),
   (key! "Welcome", key! "", [.H]),
-  (key! "Abort", key! "", [.H, .HM, .D, .A1]),     -- protocol violation: H (publish), D (call/yield); refusal: A1
+  (key! "Abort", key! "", [.H, .HM, .D, .A1, .Rtr]), -- protocol violation: H (publish), D (call/yield); refusal: A1, and
+                                                      -- Rtr (sendAbort called inside the action posted to the router)
   (key! "Challenge", key! "", [.A1]),
   -- the bodies of trySend (whatever they are handed)
   (key! "Message", key! "", [.H, .HM, .B, .D])]
@@ -86,9 +94,9 @@ theorem emitters : ∀ e ∈ expectedEmitters, sameSet (emitterRoles e.1 e.2.1) 
 
 /-- No message kind sent to clients is missing from `expectedEmitters`. -/
 theorem emitters_complete :
-    ∀ m ∈ msgSends, m.toMeta = false →
+    ∀ m ∈ WpL3.allMsgSends, m.toMeta = false →
       (expectedEmitters.any fun e => Nat.beq e.1 m.msgType && Nat.beq e.2.1 m.errType) = true := by
-  have h : msgSends.all (fun m => m.toMeta ||
+  have h : WpL3.allMsgSends.all (fun m => m.toMeta ||
       expectedEmitters.any fun e => Nat.beq e.1 m.msgType && Nat.beq e.2.1 m.errType) = true := by
     decide +kernel
   intro m hm h1
@@ -169,5 +177,165 @@ theorem delivered_pair_order {μ : Type} (cap : Nat) (evs : List (Fifo.Ev μ)) {
     is lost, the others arrive in order. -/
 example : (Fifo.run 2 Fifo.empty [.offer 1, .offer 2, .offer 3, .take, .offer 4, .take, .take]).delivered
     = [1, 2, 4] := by decide
+
+/-! ### The three links composed
+
+`Nexus/L3/WpL3Pipeline.lean` is a transition system for the whole path: sessions holding their
+requests in program order, rendezvous hand-offs to one worker that runs one action at a time on its own
+state (`act`: for the broker and the dealer, the L2 step function), non-blocking offers to one lossy
+queue per recipient, other goroutines offering into the same queues, recipients taking — under an
+arbitrary schedule. The table facts above are what makes the router an instance:
+
+  model ingredient                                      table fact
+  a session's requests are handed over one by one,      handlers_spawn_nothing, handler_posts_are_plain_sends
+    in program order, each by a rendezvous
+  one worker per table, one action at a time            single_workers
+  offers are non-blocking                               C07.trySend_nonblocking (+ `Message` bodies of trySend)
+  the other goroutines offer no message of the          emitters / ordered_kinds_single_emitter: the ordered kinds
+    worker's ordered kinds                                have the worker as their only emitting role
+
+The last one is used formally: a foreign offer must be attributed to a role that table (f) lists as
+an emitter of that message kind (`Admissible`). -/
+
+section Pipeline
+open Nexus.L3.WpL3.Pipeline
+
+/-- A message as the site tables see it: type, Type field of an ERROR (or `key! ""`), and the rest. -/
+structure KMsg (π : Type) where
+  msgType : Nat
+  errType : Nat
+  payload : π
+  deriving DecidableEq
+
+def isKind {π : Type} (kinds : List (Nat × Nat)) (m : KMsg π) : Bool :=
+  kinds.any fun q => Nat.beq q.1 m.msgType && Nat.beq q.2 m.errType
+
+/-- The ordered kinds of the broker group and of the dealer group. -/
+def brokerKinds : List (Nat × Nat) :=
+  [(key! "Subscribed", key! ""), (key! "Unsubscribed", key! ""), (key! "Event", key! ""),
+   (key! "Error", key! "UNSUBSCRIBE")]
+
+def dealerKinds : List (Nat × Nat) :=
+  [(key! "Registered", key! ""), (key! "Unregistered", key! ""), (key! "Invocation", key! ""),
+   (key! "Interrupt", key! ""), (key! "Result", key! ""), (key! "Error", key! "CALL"),
+   (key! "Error", key! "UNREGISTER"), (key! "Error", key! "YIELD")]
+
+/-- Table fact: each of these kinds is put into client queues by one role only. -/
+theorem kinds_owned :
+    (∀ q ∈ brokerKinds, emitterRoles q.1 q.2 = [.B]) ∧ (∀ q ∈ dealerKinds, emitterRoles q.1 q.2 = [.D]) := by
+  have h1 : brokerKinds.all (fun q => decide (emitterRoles q.1 q.2 = [.B])) = true := by decide +kernel
+  have h2 : dealerKinds.all (fun q => decide (emitterRoles q.1 q.2 = [.D])) = true := by decide +kernel
+  exact ⟨fun q hq => of_decide_eq_true (forall_of_all h1 q hq),
+         fun q hq => of_decide_eq_true (forall_of_all h2 q hq)⟩
+
+variable {σ Sess Req Rcpt π : Type} [DecidableEq Sess] [DecidableEq Rcpt]
+
+/-- A schedule is admissible for worker `w` if every offer by another goroutine is attributed to a
+    role other than `w` that the site table (f) lists as an emitter of that message kind. -/
+def Admissible (w : Role) (evs : List (Ev Sess Rcpt (KMsg π))) : Prop :=
+  ∀ e ∈ evs, ∀ k m, e = .other k m → ∃ r, r ≠ w ∧ r ∈ emitterRoles m.msgType m.errType
+
+omit [DecidableEq Sess] [DecidableEq Rcpt] in
+theorem foreign_of_admissible (w : Role) (kinds : List (Nat × Nat))
+    (hown : ∀ q ∈ kinds, emitterRoles q.1 q.2 = [w]) (evs : List (Ev Sess Rcpt (KMsg π)))
+    (hadm : Admissible w evs) : Foreign (isKind kinds) evs := by
+  intro e he k m hem
+  obtain ⟨r, hrw, hr⟩ := hadm e he k m hem
+  cases hk : isKind kinds m with
+  | false => rfl
+  | true =>
+    obtain ⟨q, hq, hqm⟩ := List.any_eq_true.mp hk
+    simp only [Bool.and_eq_true] at hqm
+    have e1 := Nat.eq_of_beq_eq_true hqm.1
+    have e2 := Nat.eq_of_beq_eq_true hqm.2
+    have := hown q hq
+    rw [e1, e2] at this
+    rw [this] at hr
+    exact absurd (List.mem_singleton.mp hr) hrw
+
+/-- **Program order.** Under every schedule the worker takes each session's requests in that
+    session's program order, whatever the other sessions do. -/
+theorem pipeline_program_order (S : Sys σ Sess Req Rcpt (KMsg π)) (evs : List (Ev Sess Rcpt (KMsg π)))
+    (s : Sess) :
+    (((run S (start S) evs).log.filter fun a => decide (a.1 = s)).map (·.2)) <+: S.progs s :=
+  worker_order_prefix S evs s
+
+/-- **Delivery.** Under every admissible schedule, what a recipient has received of the worker's
+    ordered kinds is a subsequence, in order, of what the worker's atomic actions — in the order the
+    worker took them — emitted for that recipient. -/
+theorem pipeline_delivery (w : Role) (kinds : List (Nat × Nat))
+    (hown : ∀ q ∈ kinds, emitterRoles q.1 q.2 = [w])
+    (S : Sys σ Sess Req Rcpt (KMsg π)) (evs : List (Ev Sess Rcpt (KMsg π))) (hadm : Admissible w evs)
+    (k : Rcpt) :
+    (((run S (start S) evs).fifo k).delivered.filter (isKind kinds)).Sublist
+      ((emissionsFor S (run S (start S) evs).log k).filter (isKind kinds)) :=
+  delivered_sublist_of_emissions S (isKind kinds) evs (foreign_of_admissible w kinds hown evs hadm) k
+
+/-- The broker: SUBSCRIBED, UNSUBSCRIBED, EVENT (and the UNSUBSCRIBE error) reach each client as a
+    subsequence of the broker's output in the order of its atomic actions (the L2 order). -/
+theorem broker_pipeline (S : Sys σ Sess Req Rcpt (KMsg π)) (evs : List (Ev Sess Rcpt (KMsg π)))
+    (hadm : Admissible .B evs) (k : Rcpt) :
+    (((run S (start S) evs).fifo k).delivered.filter (isKind brokerKinds)).Sublist
+      ((emissionsFor S (run S (start S) evs).log k).filter (isKind brokerKinds)) :=
+  pipeline_delivery .B brokerKinds kinds_owned.1 S evs hadm k
+
+/-- The dealer: REGISTERED, UNREGISTERED, INVOCATION, INTERRUPT, RESULT and the CALL / UNREGISTER /
+    YIELD errors reach each client as a subsequence of the dealer's output in action order. -/
+theorem dealer_pipeline (S : Sys σ Sess Req Rcpt (KMsg π)) (evs : List (Ev Sess Rcpt (KMsg π)))
+    (hadm : Admissible .D evs) (k : Rcpt) :
+    (((run S (start S) evs).fifo k).delivered.filter (isKind dealerKinds)).Sublist
+      ((emissionsFor S (run S (start S) evs).log k).filter (isKind dealerKinds)) :=
+  pipeline_delivery .D dealerKinds kinds_owned.2 S evs hadm k
+
+/-- Two received messages of the worker's kinds were produced in that order. -/
+theorem pipeline_pair_order (w : Role) (kinds : List (Nat × Nat))
+    (hown : ∀ q ∈ kinds, emitterRoles q.1 q.2 = [w])
+    (S : Sys σ Sess Req Rcpt (KMsg π)) (evs : List (Ev Sess Rcpt (KMsg π))) (hadm : Admissible w evs)
+    (k : Rcpt) {a b c : List (KMsg π)} {x y : KMsg π}
+    (e : ((run S (start S) evs).fifo k).delivered.filter (isKind kinds) = a ++ x :: b ++ y :: c) :
+    [x, y].Sublist ((emissionsFor S (run S (start S) evs).log k).filter (isKind kinds)) :=
+  delivered_pair_in_action_order S (isKind kinds) evs (foreign_of_admissible w kinds hown evs hadm) k e
+
+end Pipeline
+
+/-! Non-vacuity: a concrete broker-like system. Sessions 0 and 1 publish (requests are numbers), every
+    action emits an EVENT carrying the request to recipient 7 and the running count to recipient 8;
+    queues hold one message. In the schedule below session 1's hand-off is taken between session 0's
+    two, a PUBLISHED from a session handler (role H, an admissible foreign offer) is interleaved, and
+    recipient 7 loses the second EVENT because it has not taken the first one yet. -/
+section Example
+open Nexus.L3.WpL3.Pipeline
+
+def exSys : Sys Nat Nat Nat Nat (KMsg Nat) where
+  progs := fun s => if s = 0 then [10, 11] else if s = 1 then [20] else []
+  act := fun n _ r => (n + 1, [(7, ⟨key! "Event", key! "", r⟩), (8, ⟨key! "Event", key! "", n⟩)])
+  init := 0
+  cap := fun _ => 1
+
+def exSched : List (Ev Nat Nat (KMsg Nat)) :=
+  [.handoff 0, .emit, .emit, .handoff 1, .other 7 ⟨key! "Published", key! "", 0⟩, .emit, .take 7, .emit,
+   .handoff 0, .emit, .take 7, .take 8, .emit, .take 8]
+
+example : ((run exSys (start exSys) exSched).log = [(0, 10), (1, 20), (0, 11)]) ∧
+    (((run exSys (start exSys) exSched).fifo 7).delivered.map (·.payload) = [10, 11]) ∧
+    ((emissionsFor exSys (run exSys (start exSys) exSched).log 7).map (·.payload) = [10, 20, 11]) ∧
+    (((run exSys (start exSys) exSched).fifo 8).delivered.map (·.payload) = [0, 2]) := by
+  decide
+
+/-- Hypothesis of `pipeline_pair_order` in that run: recipient 7 received EVENT 10 before EVENT 11. -/
+example : ((run exSys (start exSys) exSched).fifo 7).delivered.filter (isKind brokerKinds) =
+    [] ++ (⟨key! "Event", key! "", 10⟩ : KMsg Nat) :: [] ++ ⟨key! "Event", key! "", 11⟩ :: [] := by decide
+
+example : Admissible (Sess := Nat) (Rcpt := Nat) (π := Nat) .B exSched := by
+  intro e he k m hem
+  have hm : m.msgType = key! "Published" ∧ m.errType = key! "" := by
+    simp only [exSched, List.mem_cons, List.mem_nil_iff, or_false] at he
+    rcases he with h | h | h | h | h | h | h | h | h | h | h | h | h | h <;> subst h <;>
+      (try cases hem) <;> exact ⟨rfl, rfl⟩
+  refine ⟨.H, by decide, ?_⟩
+  rw [hm.1, hm.2]
+  decide +kernel
+
+end Example
 
 end Nexus.C08
